@@ -757,10 +757,16 @@ impl<T: GseDecapMemory, C: CrcCalculator, MHEM: MandatoryHeaderExtensionManager>
         if pdu_buffer_len < calculed_pdu_len {
             return Err(self.give_back(pdu, DecapError::ErrorSizePduBuffer, pkt_len));
         }
+        // the length received so far is kept on 16 bits like the total length it is compared with:
+        // a train that exceeds it can never be completed
+        let new_pdu_len = match decap_context.pdu_len.checked_add(calculed_pdu_len as u16) {
+            Some(len) => len,
+            None => return Err(self.give_back(pdu, DecapError::ErrorTotalLength, pkt_len)),
+        };
         pdu_buffer[..calculed_pdu_len].copy_from_slice(&buffer[offset..offset + calculed_pdu_len]);
 
         // save state
-        decap_context.pdu_len += calculed_pdu_len as u16;
+        decap_context.pdu_len = new_pdu_len;
 
         let metadata = DecapMetadata {
             pdu_len: 0,
@@ -829,8 +835,9 @@ impl<T: GseDecapMemory, C: CrcCalculator, MHEM: MandatoryHeaderExtensionManager>
             )
         };
 
-        let total_len_received = (pdu_len + PROTOCOL_LEN + first_label_len) as u16;
-        if decap_context.total_len != total_len_received {
+        // compared as usize: with a storage larger than 65535 bytes the received length does not fit in 16 bits
+        let total_len_received = pdu_len + PROTOCOL_LEN + first_label_len;
+        if decap_context.total_len as usize != total_len_received {
             return Err(self.give_back(pdu, DecapError::ErrorTotalLength, pkt_len));
         }
 
